@@ -16,19 +16,19 @@ import Mathlib.Data.Matrix.Basis
   * `lift_injective`, `lift_eq_iff`, `lift_eq_smul_iff`   `lift idx a = z • lift idx b ↔ a = z • b` (duplicate-free in-range `idx`)
   Crisp comparisons
   * `CrispCmp atol a b`         the three kinds of tests `equivPhase atol a b` makes are honest
-  * `equivPhase_iff_crisp`      `equivPhase atol a b = true ↔ ∃ z ≠ 0, a = z • b`   (`a ≠ 0`, `CrispCmp`)
+  * `equivPhase_iff_crisp`      `equivPhase atol a b = true ↔ ∃ z, ‖z‖ = 1 ∧ a = z • b`   (`a ≠ 0`, `CrispCmp`)
   * `crispCmp_of_smul`, `crispCmp_localMatrix_of_exact`   exactly equal inputs (unit factor, an entry `≥ atol`) are crisp
   4. C06
   * `localMatrix_list_ok_of`    `localMatrix idx gs` exists if all operands are listed and all matrix sizes fit
   * `checkGateReplacement_reject_foreign`   a replacement touching a qubit outside `g.operands` ⇒ `ValueError` (any `α`)
   * `checkGateReplacement_none_local`       accepted ⇒ only the gate's qubits are touched, both local matrices exist (any `α`)
-  * `checkGateReplacement_iff_exact`        **accepted ⇔ acts on the gate's qubits ∧ ∃ z ≠ 0, circOp n gs [] = z • gateOp n g**
+  * `checkGateReplacement_iff_exact`        **accepted ⇔ acts on the gate's qubits ∧ ∃ z, ‖z‖ = 1 ∧ circOp n gs [] = z • gateOp n g**
   * `checkGateReplacement_reject_iff_exact` `ValueError` ⇔ the negation (no other outcome)
-  * `checkGateReplacement_nil_iff_exact`    `[]` accepted for `g` ⇔ `gateOp n g = z • 1`, `z ≠ 0` (identity-gate case)
+  * `checkGateReplacement_nil_iff_exact`    `[]` accepted for `g` ⇔ `gateOp n g = z • 1`, `‖z‖ = 1` (identity-gate case)
   * `checkGateReplacement_accepts_exact`    acceptance of an exact replacement, no crispness hypothesis
   2. C16, `compare_gates`
   * `unit_of_unitary_smul`      `A = z • B`, both unitary ⇒ `‖z‖ = 1`;  `ne_zero_of_unitary`;  `exists_big_of_unitary`
-  * `compareGatesWith_iff_exact`  any admissible enumeration of the qubits: no error, and `True ⇔ ∃ z ≠ 0, gateOp n g1 = z • gateOp n g2`
+  * `compareGatesWith_iff_exact`  any admissible enumeration of the qubits: no error, and `True ⇔ ∃ z, ‖z‖ = 1 ∧ gateOp n g1 = z • gateOp n g2`
                                 (the right-hand side does not mention the enumeration: C17 in iff form)
   * `compareGates_iff_exact`, `compareGates_false_iff_exact`, `compareGates_iff_exact_unitary` (`‖z‖ = 1`)
   * `compareGates_accepts_exact`  operators exactly phase-equal with an entry `≥ atol` ⇒ `True`, no crispness hypothesis
@@ -36,7 +36,7 @@ import Mathlib.Data.Matrix.Basis
   * `lift_disjoint_eq`          `lift [q1] U = lift [q2] V`, `q1 ≠ q2` ⇔ `U = V = c • 1`
   * `gateOp_bsr_eq_iff`         two plain rotations are the same register operator ⇔ same qubit and `rot = rot`, or both `c • 1`
   * `CrispBsr`, `gateEq_bsr_iff_exact`   two plain rotations: `True ⇔ gateOp n g1 = gateOp n g2` (**phase included**)
-  * `gateEq_iff_exact_of_not_both_bsr`   every other pair: `True ⇔ ∃ z ≠ 0, gateOp n g1 = z • gateOp n g2`
+  * `gateEq_iff_exact_of_not_both_bsr`   every other pair: `True ⇔ ∃ z, ‖z‖ = 1 ∧ gateOp n g1 = z • gateOp n g2`
   * `SameOp`, `CrispEq`, `EqHyp`, `gateEq_iff_exact`, `gateEq_total_exact`, `gateEq_false_iff_exact`   the dispatch, one statement
   * `SameOp.refl/.symm/.scalar/.trans_partial`, `gateEq_refl_crisp`, `gateEq_symm_exact`, `gateEq_trans_exact_partial`
   * `gateEq_not_transitive`     FINDING: `Gate.__eq__` is not transitive even on exact inputs
@@ -98,22 +98,22 @@ end liftInj
 
 /-! ## Crisp comparisons: `equivPhase` at the exact level -/
 
-/-- **the tests made by `equivPhase atol a b` are honest**: with `l = argmaxAbs a` and `z = a_l / b_l`, the two
-    pivot tests `‖a_l‖ < atol`, `‖b_l‖ < atol` fire only for a zero entry, and every closeness test
-    `‖a_k − z·b_k‖ ≤ atol + 1e-5·‖z·b_k‖` holds only when `a_k = z·b_k`. -/
+/-- **the tests made by `equivPhase atol a b` are honest**: with `l = argmaxAbs a` and the measured (normalised)
+    phase `z = pivotPhase a b = w/‖w‖`, `w = a_l / b_l`, the two pivot tests `‖a_l‖ < atol`, `‖b_l‖ < atol` fire only
+    for a zero entry, and every closeness test `‖a_k − z·b_k‖ ≤ atol + 1e-5·‖z·b_k‖` holds only when `a_k = z·b_k`. -/
 def CrispCmp (atol : ℝ) (a b : Mat ℝ) : Prop :=
   (‖a.flat (argmaxAbs a)‖ < atol → a.flat (argmaxAbs a) = 0) ∧
   (‖b.flat (argmaxAbs a)‖ < atol → b.flat (argmaxAbs a) = 0) ∧
   ∀ k, k < a.n * a.n →
-    ‖a.flat k - a.flat (argmaxAbs a) / b.flat (argmaxAbs a) * b.flat k‖
-      ≤ atol + 1e-5 * ‖a.flat (argmaxAbs a) / b.flat (argmaxAbs a) * b.flat k‖ →
-    a.flat k = a.flat (argmaxAbs a) / b.flat (argmaxAbs a) * b.flat k
+    ‖a.flat k - pivotPhase a b * b.flat k‖ ≤ atol + 1e-5 * ‖pivotPhase a b * b.flat k‖ →
+    a.flat k = pivotPhase a b * b.flat k
 
 /-- **`equivPhase`, exact level**: for a non-zero `a` and honest tests, the verdict is `True` exactly when
-    `a = z • b` for some non-zero complex `z`. -/
+    `a = z • b` for some complex `z` of modulus one — a genuine global phase (before the repair of the Python
+    code the right-hand side was only `∃ z ≠ 0`: any non-zero multiple was accepted). -/
 theorem equivPhase_iff_crisp (atol : ℝ) (hatol : 0 < atol) (N : Nat) (a b : Mat ℝ)
     (ha : a.n = N) (hb : b.n = N) (hne : a.toMatrixOn N ≠ 0) (hc : CrispCmp atol a b) :
-    equivPhase atol a b = true ↔ ∃ z : ℂ, z ≠ 0 ∧ a.toMatrixOn N = z • b.toMatrixOn N := by
+    equivPhase atol a b = true ↔ ∃ z : ℂ, ‖z‖ = 1 ∧ a.toMatrixOn N = z • b.toMatrixOn N := by
   obtain ⟨hpa, hpb, hck⟩ := hc
   constructor
   · intro h
@@ -155,7 +155,8 @@ theorem equivPhase_iff_crisp (atol : ℝ) (hatol : 0 < atol) (N : Nat) (a b : Ma
       intro h0
       apply hal
       rw [hflat _ hl, h0, mul_zero]
-    have hph : a.flat (argmaxAbs a) / b.flat (argmaxAbs a) = z := by
+    have hph : pivotPhase a b = z := by
+      apply pivotPhase_of_unit a b hz
       rw [hflat _ hl, mul_div_assoc, div_self hbl, mul_one]
     rw [equivPhase_iff]
     refine ⟨fun h => hal (hpa h), fun h => hbl (hpb h), ?_⟩
@@ -259,20 +260,20 @@ theorem gateOp_eq_lift_local {n : Nat} {g : Gate ℝ} (hwf : GateWF n g) {A : Ma
 /-- **C06 at the register level, exact.**  For a gate with distinct in-range operands whose operator is not
     zero (automatic for a unitary), replacement gates whose matrix nodes have the right size, and honest
     tolerance tests: `check_gate_replacement` accepts **exactly when** the replacement acts on the gate's qubits
-    only and its operator on the whole register equals the gate's operator up to a non-zero scalar (a global
-    phase when both are unitary: `unit_of_unitary_smul`). -/
+    only and its operator on the whole register equals the gate's operator up to a global phase (a scalar of
+    modulus one; a mere non-zero multiple is rejected). -/
 theorem checkGateReplacement_iff_exact (atol : ℝ) (hatol : 0 < atol) (n : Nat) (g : Gate ℝ) (gs : List (Gate ℝ))
     (hwf : GateWF n g) (hd : g.dimOk) (hds : ∀ r ∈ gs, r.dimOk) (hne : gateOp n g ≠ 0)
     (hcrisp : ∀ A B, localMatrix g.operands [g] = .ok A → localMatrix g.operands gs = .ok B →
       CrispCmp atol A B) :
     checkGateReplacement atol g gs = none ↔
       (∀ r ∈ gs, ∀ q ∈ r.operands, q ∈ g.operands) ∧
-        ∃ z : ℂ, z ≠ 0 ∧ circOp n (gateStmts gs) [] = z • gateOp n g := by
+        ∃ z : ℂ, ‖z‖ = 1 ∧ circOp n (gateStmts gs) [] = z • gateOp n g := by
   have hndN := nodup_map_toNat (n := n) g.operands hwf.1 hwf.2
   have hltN := map_toNat_lt (n := n) g.operands hwf.2
   -- the criterion once both local matrices are at hand
   have key : ∀ A B, localMatrix g.operands [g] = .ok A → localMatrix g.operands gs = .ok B →
-      (equivPhase atol A B = true ↔ ∃ z : ℂ, z ≠ 0 ∧ circOp n (gateStmts gs) [] = z • gateOp n g) := by
+      (equivPhase atol A B = true ↔ ∃ z : ℂ, ‖z‖ = 1 ∧ circOp n (gateStmts gs) [] = z • gateOp n g) := by
     intro A B hA hB
     have hgA := gateOp_eq_lift_local hwf hA
     have hgB := localMatrix_lift (n := n) g.operands hwf.1 hwf.2 hB []
@@ -284,12 +285,12 @@ theorem checkGateReplacement_iff_exact (atol : ℝ) (hatol : 0 < atol) (n : Nat)
       (hcrisp A B hA hB), ← hgB, hgA]
     constructor
     · rintro ⟨z, hz, H⟩
-      refine ⟨z⁻¹, inv_ne_zero hz, ?_⟩
-      rw [H, lift_smul, smul_smul, inv_mul_cancel₀ hz, one_smul]
+      refine ⟨z⁻¹, norm_inv_of_norm_one hz, ?_⟩
+      rw [H, lift_smul, smul_smul, inv_mul_cancel₀ (ne_zero_of_norm_one hz), one_smul]
     · rintro ⟨z, hz, H⟩
-      refine ⟨z⁻¹, inv_ne_zero hz, ?_⟩
+      refine ⟨z⁻¹, norm_inv_of_norm_one hz, ?_⟩
       rw [lift_eq_smul_iff _ _ hndN hltN] at H
-      rw [H, smul_smul, inv_mul_cancel₀ hz, one_smul]
+      rw [H, smul_smul, inv_mul_cancel₀ (ne_zero_of_norm_one hz), one_smul]
   constructor
   · intro h
     obtain ⟨hloc, A, B, hA, hB, heq⟩ := checkGateReplacement_none_local atol g gs h
@@ -299,29 +300,29 @@ theorem checkGateReplacement_iff_exact (atol : ℝ) (hatol : 0 < atol) (n : Nat)
     obtain ⟨B, hB⟩ := localMatrix_list_ok_of g.operands gs (fun r hr => ⟨hloc r hr, hds r hr⟩)
     rw [checkGateReplacement_local atol g gs hloc hA hB, (key A B hA hB).mpr hz, if_pos rfl]
 
-/-- the identity-gate case: the empty replacement is accepted exactly for a gate that is a non-zero multiple of `1` -/
+/-- the identity-gate case: the empty replacement is accepted exactly for a gate that is a unit multiple (a phase times) of `1` -/
 theorem checkGateReplacement_nil_iff_exact (atol : ℝ) (hatol : 0 < atol) (n : Nat) (g : Gate ℝ)
     (hwf : GateWF n g) (hd : g.dimOk) (hne : gateOp n g ≠ 0)
     (hcrisp : ∀ A B, localMatrix g.operands [g] = .ok A → localMatrix g.operands [] = .ok B →
       CrispCmp atol A B) :
-    checkGateReplacement atol g [] = none ↔ ∃ z : ℂ, z ≠ 0 ∧ gateOp n g = z • (1 : Op n) := by
+    checkGateReplacement atol g [] = none ↔ ∃ z : ℂ, ‖z‖ = 1 ∧ gateOp n g = z • (1 : Op n) := by
   rw [checkGateReplacement_iff_exact atol hatol n g [] hwf hd (by simp) hne hcrisp]
   simp only [List.not_mem_nil, false_imp_iff, implies_true, true_and, gateStmts, List.map_nil, circOp_nil]
   constructor
   · rintro ⟨z, hz, H⟩
-    exact ⟨z⁻¹, inv_ne_zero hz, by rw [H, smul_smul, inv_mul_cancel₀ hz, one_smul]⟩
+    exact ⟨z⁻¹, norm_inv_of_norm_one hz, by rw [H, smul_smul, inv_mul_cancel₀ (ne_zero_of_norm_one hz), one_smul]⟩
   · rintro ⟨z, hz, H⟩
-    exact ⟨z⁻¹, inv_ne_zero hz, by rw [H, smul_smul, inv_mul_cancel₀ hz, one_smul]⟩
+    exact ⟨z⁻¹, norm_inv_of_norm_one hz, by rw [H, smul_smul, inv_mul_cancel₀ (ne_zero_of_norm_one hz), one_smul]⟩
 
 /-- **C06, rejection**: under the same hypotheses the only other outcome is `ValueError`, raised exactly when the
-    replacement touches a foreign qubit or its register operator is not a non-zero multiple of the gate's. -/
+    replacement touches a foreign qubit or its register operator is not a unit multiple (phase multiple) of the gate's. -/
 theorem checkGateReplacement_reject_iff_exact (atol : ℝ) (hatol : 0 < atol) (n : Nat) (g : Gate ℝ)
     (gs : List (Gate ℝ)) (hwf : GateWF n g) (hd : g.dimOk) (hds : ∀ r ∈ gs, r.dimOk) (hne : gateOp n g ≠ 0)
     (hcrisp : ∀ A B, localMatrix g.operands [g] = .ok A → localMatrix g.operands gs = .ok B →
       CrispCmp atol A B) :
     checkGateReplacement atol g gs = some .value ↔
       ¬ ((∀ r ∈ gs, ∀ q ∈ r.operands, q ∈ g.operands) ∧
-        ∃ z : ℂ, z ≠ 0 ∧ circOp n (gateStmts gs) [] = z • gateOp n g) := by
+        ∃ z : ℂ, ‖z‖ = 1 ∧ circOp n (gateStmts gs) [] = z • gateOp n g) := by
   rw [← checkGateReplacement_iff_exact atol hatol n g gs hwf hd hds hne hcrisp]
   by_cases hloc : ∀ r ∈ gs, ∀ q ∈ r.operands, q ∈ g.operands
   · obtain ⟨A, hA⟩ := (localMatrix_single_ok_iff g.operands g).mpr ⟨fun q hq => hq, hd⟩
@@ -413,7 +414,7 @@ theorem compareGatesWith_iff_exact (atol : ℝ) (hatol : 0 < atol) (n : Nat) (id
     (hne : gateOp n g1 ≠ 0)
     (hcrisp : ∀ A B, localMatrix idx [g1] = .ok A → localMatrix idx [g2] = .ok B → CrispCmp atol A B) :
     (∃ v, compareGatesWith atol idx g1 g2 = .ok v) ∧
-    (compareGatesWith atol idx g1 g2 = .ok true ↔ ∃ z : ℂ, z ≠ 0 ∧ gateOp n g1 = z • gateOp n g2) := by
+    (compareGatesWith atol idx g1 g2 = .ok true ↔ ∃ z : ℂ, ‖z‖ = 1 ∧ gateOp n g1 = z • gateOp n g2) := by
   obtain ⟨A, hA⟩ := (localMatrix_single_ok_iff idx g1).mpr ⟨h1, hd1⟩
   obtain ⟨B, hB⟩ := (localMatrix_single_ok_iff idx g2).mpr ⟨h2, hd2⟩
   have hgA := gateOp_eq_lift_localMatrix (n := n) idx hnd hreg hA
@@ -444,13 +445,12 @@ theorem dedup_union_reg {n : Nat} {g1 g2 : Gate ℝ} (h1 : g1.inReg n) (h2 : g2.
 /-- **C16 for `compare_gates`, register level, exact.**  For two gates with in-range operands and fitting matrix
     sizes, `g1`'s operator not zero (automatic for a unitary) and honest tolerance tests on the two local matrices
     over the union `U = dedup (g1.operands ++ g2.operands)`: `compare_gates(g1, g2)` is `True` **exactly when** the two
-    operators on the whole register are equal up to a non-zero scalar (a global phase for unitaries:
-    `unit_of_unitary_smul`); it never raises. -/
+    operators on the whole register are equal up to a global phase (a scalar of modulus one); it never raises. -/
 theorem compareGates_iff_exact (atol : ℝ) (hatol : 0 < atol) (n : Nat) (g1 g2 : Gate ℝ)
     (h1 : g1.inReg n) (hd1 : g1.dimOk) (h2 : g2.inReg n) (hd2 : g2.dimOk) (hne : gateOp n g1 ≠ 0)
     (hcrisp : ∀ A B, localMatrix (dedup (g1.operands ++ g2.operands)) [g1] = .ok A →
       localMatrix (dedup (g1.operands ++ g2.operands)) [g2] = .ok B → CrispCmp atol A B) :
-    compareGates atol g1 g2 = .ok true ↔ ∃ z : ℂ, z ≠ 0 ∧ gateOp n g1 = z • gateOp n g2 := by
+    compareGates atol g1 g2 = .ok true ↔ ∃ z : ℂ, ‖z‖ = 1 ∧ gateOp n g1 = z • gateOp n g2 := by
   rw [compareGates_eq_with]
   exact (compareGatesWith_iff_exact atol hatol n _ (dedup_nodup _) (dedup_union_reg h1 h2) g1 g2
     (fun q hq => (mem_dedup _ q).mpr (List.mem_append_left _ hq)) hd1
@@ -461,7 +461,7 @@ theorem compareGates_false_iff_exact (atol : ℝ) (hatol : 0 < atol) (n : Nat) (
     (h1 : g1.inReg n) (hd1 : g1.dimOk) (h2 : g2.inReg n) (hd2 : g2.dimOk) (hne : gateOp n g1 ≠ 0)
     (hcrisp : ∀ A B, localMatrix (dedup (g1.operands ++ g2.operands)) [g1] = .ok A →
       localMatrix (dedup (g1.operands ++ g2.operands)) [g2] = .ok B → CrispCmp atol A B) :
-    compareGates atol g1 g2 = .ok false ↔ ¬ ∃ z : ℂ, z ≠ 0 ∧ gateOp n g1 = z • gateOp n g2 := by
+    compareGates atol g1 g2 = .ok false ↔ ¬ ∃ z : ℂ, ‖z‖ = 1 ∧ gateOp n g1 = z • gateOp n g2 := by
   rw [← compareGates_iff_exact atol hatol n g1 g2 h1 hd1 h2 hd2 hne hcrisp, compareGates_eq_with]
   obtain ⟨v, hv⟩ := (compareGatesWith_iff_exact atol hatol n _ (dedup_nodup _) (dedup_union_reg h1 h2) g1 g2
     (fun q hq => (mem_dedup _ q).mpr (List.mem_append_left _ hq)) hd1
@@ -469,24 +469,16 @@ theorem compareGates_false_iff_exact (atol : ℝ) (hatol : 0 < atol) (n : Nat) (
   rw [hv]
   cases v <;> simp
 
-/-- for unitary gate operators the scalar is a phase -/
+/-- for unitary gate operators (kept under its old name: since the measured phase is normalised,
+    `compareGates_iff_exact` itself now has `‖z‖ = 1`; unitarity only supplies `gateOp n g1 ≠ 0`) -/
 theorem compareGates_iff_exact_unitary (atol : ℝ) (hatol : 0 < atol) (n : Nat) (g1 g2 : Gate ℝ)
     (h1 : g1.inReg n) (hd1 : g1.dimOk) (h2 : g2.inReg n) (hd2 : g2.dimOk)
     (hu1 : gateOp n g1 ∈ Matrix.unitaryGroup (Fin (2 ^ n)) ℂ)
-    (hu2 : gateOp n g2 ∈ Matrix.unitaryGroup (Fin (2 ^ n)) ℂ)
     (hcrisp : ∀ A B, localMatrix (dedup (g1.operands ++ g2.operands)) [g1] = .ok A →
       localMatrix (dedup (g1.operands ++ g2.operands)) [g2] = .ok B → CrispCmp atol A B) :
     compareGates atol g1 g2 = .ok true ↔ ∃ z : ℂ, ‖z‖ = 1 ∧ gateOp n g1 = z • gateOp n g2 := by
   have : Nonempty (Fin (2 ^ n)) := ⟨⟨0, Nat.two_pow_pos n⟩⟩
-  rw [compareGates_iff_exact atol hatol n g1 g2 h1 hd1 h2 hd2 (ne_zero_of_unitary hu1) hcrisp]
-  constructor
-  · rintro ⟨z, _, H⟩
-    exact ⟨z, unit_of_unitary_smul hu1 hu2 H, H⟩
-  · rintro ⟨z, hz, H⟩
-    refine ⟨z, ?_, H⟩
-    intro h0
-    rw [h0, norm_zero] at hz
-    exact zero_ne_one hz
+  exact compareGates_iff_exact atol hatol n g1 g2 h1 hd1 h2 hd2 (ne_zero_of_unitary hu1) hcrisp
 
 /-! ## 3. `Gate.__eq__` (the dispatch `gateEq`), register level, exact -/
 
@@ -639,10 +631,10 @@ def Gate.isBsr {α : Type} : Gate α → Bool
   | _ => false
 
 /-- **what `Gate.__eq__` decides** (specification): two plain rotations — the same register operator, phase
-    included; any other pair — the same register operator up to a non-zero scalar. -/
+    included; any other pair — the same register operator up to a global phase (a unit scalar). -/
 def SameOp (n : Nat) (g1 g2 : Gate ℝ) : Prop :=
   if g1.isBsr = true ∧ g2.isBsr = true then gateOp n g1 = gateOp n g2
-  else ∃ z : ℂ, z ≠ 0 ∧ gateOp n g1 = z • gateOp n g2
+  else ∃ z : ℂ, ‖z‖ = 1 ∧ gateOp n g1 = z • gateOp n g2
 
 /-- the honest-test hypothesis for the comparison `g1 == g2`, following the dispatch -/
 def CrispEq (atol : ℝ) : Gate ℝ → Gate ℝ → Prop
@@ -656,7 +648,7 @@ theorem gateEq_iff_exact_of_not_both_bsr (atol : ℝ) (hatol : 0 < atol) (n : Na
     (h1 : g1.inReg n) (hd1 : g1.dimOk) (h2 : g2.inReg n) (hd2 : g2.dimOk) (hne : gateOp n g1 ≠ 0)
     (hcrisp : ∀ A B, localMatrix (dedup (g1.operands ++ g2.operands)) [g1] = .ok A →
       localMatrix (dedup (g1.operands ++ g2.operands)) [g2] = .ok B → CrispCmp atol A B) :
-    gateEq atol g1 g2 = .ok true ↔ ∃ z : ℂ, z ≠ 0 ∧ gateOp n g1 = z • gateOp n g2 := by
+    gateEq atol g1 g2 = .ok true ↔ ∃ z : ℂ, ‖z‖ = 1 ∧ gateOp n g1 = z • gateOp n g2 := by
   rw [gateEq_eq_compareGates atol g1 g2 (by
     by_contra hcon
     rw [not_or] at hcon
@@ -714,7 +706,7 @@ theorem SameOp.refl (n : Nat) (g : Gate ℝ) : SameOp n g g := by
   unfold SameOp
   split
   · rfl
-  · exact ⟨1, one_ne_zero, (one_smul _ _).symm⟩
+  · exact ⟨1, norm_one, (one_smul _ _).symm⟩
 
 theorem SameOp.symm {n : Nat} {g1 g2 : Gate ℝ} (h : SameOp n g1 g2) : SameOp n g2 g1 := by
   unfold SameOp at h ⊢
@@ -725,14 +717,14 @@ theorem SameOp.symm {n : Nat} {g1 g2 : Gate ℝ} (h : SameOp n g1 g2) : SameOp n
   · rw [if_neg hb] at h
     rw [if_neg (fun hb' => hb ⟨hb'.2, hb'.1⟩)]
     obtain ⟨z, hz, H⟩ := h
-    exact ⟨z⁻¹, inv_ne_zero hz, by rw [H, smul_smul, inv_mul_cancel₀ hz, one_smul]⟩
+    exact ⟨z⁻¹, norm_inv_of_norm_one hz, by rw [H, smul_smul, inv_mul_cancel₀ (ne_zero_of_norm_one hz), one_smul]⟩
 
-/-- in every case the operators agree up to a non-zero scalar -/
+/-- in every case the operators agree up to a unit scalar -/
 theorem SameOp.scalar {n : Nat} {g1 g2 : Gate ℝ} (h : SameOp n g1 g2) :
-    ∃ z : ℂ, z ≠ 0 ∧ gateOp n g1 = z • gateOp n g2 := by
+    ∃ z : ℂ, ‖z‖ = 1 ∧ gateOp n g1 = z • gateOp n g2 := by
   unfold SameOp at h
   split at h
-  · exact ⟨1, one_ne_zero, by rw [h, one_smul]⟩
+  · exact ⟨1, norm_one, by rw [h, one_smul]⟩
   · exact h
 
 /-- transitivity, except when two plain rotations are linked through a gate that is not one -/
@@ -749,7 +741,7 @@ theorem SameOp.trans_partial {n : Nat} {g1 g2 g3 : Gate ℝ}
     obtain ⟨w, hw, K⟩ := h23.scalar
     unfold SameOp
     rw [if_neg hb]
-    exact ⟨z * w, mul_ne_zero hz hw, by rw [H, K, smul_smul]⟩
+    exact ⟨z * w, by rw [norm_mul, hz, hw, one_mul], by rw [H, K, smul_smul]⟩
 
 /-- **reflexivity at the exact level** (register-level proof; cf. `gateEq_refl_exact` of `Equality`) -/
 theorem gateEq_refl_crisp (atol : ℝ) (hatol : 0 < atol) (n : Nat) (g : Gate ℝ) (h : EqHyp atol n g g) :
@@ -989,7 +981,8 @@ theorem crispCmp_of_smul (atol : ℝ) (N : Nat) (a b : Mat ℝ) (ha : a.n = N) (
     intro h0
     rw [h0, norm_zero] at hnorm
     linarith
-  have hph : a.flat (argmaxAbs a) / b.flat (argmaxAbs a) = z := by
+  have hph : pivotPhase a b = z := by
+    apply pivotPhase_of_unit a b hz
     rw [hflat _ hl, mul_div_assoc, div_self hbl, mul_one]
   refine ⟨fun h => absurd h (not_lt.mpr hbigl), fun h => absurd h (not_lt.mpr (hnorm ▸ hbigl)), ?_⟩
   intro k hk _
@@ -1029,7 +1022,7 @@ theorem compareGates_accepts_exact (atol : ℝ) (hatol : 0 < atol) (n : Nat) (g1
     compareGates atol g1 g2 = .ok true := by
   have hz0 : z ≠ 0 := by
     intro h0; rw [h0, norm_zero] at hz; exact zero_ne_one hz
-  refine (compareGates_iff_exact atol hatol n g1 g2 h1 hd1 h2 hd2 (ne_zero_of_big hatol hbig) ?_).mpr ⟨z, hz0, H⟩
+  refine (compareGates_iff_exact atol hatol n g1 g2 h1 hd1 h2 hd2 (ne_zero_of_big hatol hbig) ?_).mpr ⟨z, hz, H⟩
   intro A B hA hB
   exact crispCmp_localMatrix_of_exact (n := n) atol hatol _ (dedup_nodup _) (dedup_union_reg h1 h2) hA hB z hz
     (by simpa [gateStmts] using H) (by simpa [gateStmts] using hbig)
@@ -1043,7 +1036,7 @@ theorem checkGateReplacement_accepts_exact (atol : ℝ) (hatol : 0 < atol) (n : 
   have hz0 : z ≠ 0 := by
     intro h0; rw [h0, norm_zero] at hz; exact zero_ne_one hz
   refine (checkGateReplacement_iff_exact atol hatol n g gs hwf hd hds (ne_zero_of_big hatol hbig) ?_).mpr
-    ⟨hloc, z, hz0, H⟩
+    ⟨hloc, z, hz, H⟩
   intro A B hA hB
   exact crispCmp_localMatrix_of_exact (n := n) atol hatol _ hwf.1 hwf.2 hA hB z⁻¹ (by rw [norm_inv, hz, inv_one])
     (by rw [H, smul_smul, inv_mul_cancel₀ hz0, one_smul]; simp [gateStmts]) (by simpa [gateStmts] using hbig)
@@ -1203,7 +1196,7 @@ example (a b : Op 1) (h : (lift [5] rfl a : Op 7) = lift [5] rfl b) : a = b :=
 example (atol : ℝ) (h0 : 0 < atol) (h1 : atol ≤ 1) :
     checkGateReplacement atol (gCZ 0 1) [gCZ 1 0] = none ∧
       ((∀ r ∈ [gCZ 1 0], ∀ q ∈ r.operands, q ∈ (gCZ 0 1).operands) ∧
-        ∃ z : ℂ, z ≠ 0 ∧ circOp 2 (gateStmts [gCZ 1 0]) [] = z • gateOp 2 (gCZ 0 1)) := by
+        ∃ z : ℂ, ‖z‖ = 1 ∧ circOp 2 (gateStmts [gCZ 1 0]) [] = z • gateOp 2 (gCZ 0 1)) := by
   have hwf : GateWF 2 (gCZ 0 1) := ⟨by simp [gCZ, gZ, Gate.operands], gCZ_reg 0 1 2 (by omega) (by omega)⟩
   have hop : circOp 2 (gateStmts [gCZ 1 0]) [] = (1 : ℂ) • gateOp 2 (gCZ 0 1) := by
     simp only [gateStmts, List.map_cons, List.map_nil, circOp_gate, circOp_nil, Matrix.one_mul, one_smul]
@@ -1260,7 +1253,7 @@ example (atol : ℝ) (h0 : 0 < atol) (h1 : atol ≤ 1) :
 -- … the iff itself, with its crisp hypothesis discharged: the verdict `True` and the operator statement
 example (atol : ℝ) (h0 : 0 < atol) (h1 : atol ≤ 1) :
     compareGates atol (gCZ 0 1) (gCZ 1 0) = .ok true ↔
-      ∃ z : ℂ, z ≠ 0 ∧ gateOp 5 (gCZ 0 1) = z • gateOp 5 (gCZ 1 0) :=
+      ∃ z : ℂ, ‖z‖ = 1 ∧ gateOp 5 (gCZ 0 1) = z • gateOp 5 (gCZ 1 0) :=
   compareGates_iff_exact atol h0 5 _ _ (gCZ_reg 0 1 5 (by omega) (by omega)) trivial
     (gCZ_reg 1 0 5 (by omega) (by omega)) trivial (ne_zero_of_big h0 (gCZ_big 5 0 1 atol h1))
     (fun A B hA hB => crispCmp_localMatrix_of_exact (n := 5) atol h0 _ (dedup_nodup _)
